@@ -19,31 +19,38 @@ Record uri := mkUri {
    the Kleene star (so that this comment stays a comment):
      ^(([^:/?#]+):)?(//([^/?#]STAR))?([^?#]STAR)(\?([^#]STAR))?(#(.STAR))?
    scheme = $2, authority = $4, path = $5, query = $7, fragment = $9 ---- *)
-Definition parse (s : str) : uri :=
+(* (([^:/?#]+):)?  -- optional scheme, and the rest *)
+Definition p_scheme (s : str) : option str * str :=
   let (sch, r0) := span (not_in [COLON; SL; QM; HASH]) s in
-  let (o_scheme, r1) :=
-    match sch, r0 with
-    | _ :: _, c :: r => if c =? COLON then (Some sch, r) else (None, s)
-    | _, _ => (None, s)
-    end in
-  let (o_auth, r2) :=
-    match strip_prefix [SL; SL] r1 with
-    | Some r => let (a, r') := span (not_in [SL; QM; HASH]) r in (Some a, r')
-    | None => (None, r1)
-    end in
-  let (pth, r3) := span (not_in [QM; HASH]) r2 in
-  let (o_query, r4) :=
-    match r3 with
-    | c :: r => if c =? QM then let (q, r') := span (not_in [HASH]) r in (Some q, r')
-                else (None, r3)
-    | [] => (None, r3)
-    end in
-  let o_frag :=
-    match r4 with
-    | c :: r => if c =? HASH then Some r else None
-    | [] => None
-    end in
-  mkUri o_scheme o_auth pth o_query o_frag.
+  match sch, r0 with
+  | _ :: _, c :: r => if c =? COLON then (Some sch, r) else (None, s)
+  | _, _ => (None, s)
+  end.
+(* (//([^/?#]STAR))?  -- optional authority, and the rest *)
+Definition p_auth (r1 : str) : option str * str :=
+  match strip_prefix [SL; SL] r1 with
+  | Some r => let (a, r') := span (not_in [SL; QM; HASH]) r in (Some a, r')
+  | None => (None, r1)
+  end.
+(* (\?([^#]STAR))?  -- optional query, and the rest *)
+Definition p_query (r3 : str) : option str * str :=
+  match r3 with
+  | c :: r => if c =? QM then let (q, r') := span (not_in [HASH]) r in (Some q, r') else (None, r3)
+  | [] => (None, r3)
+  end.
+(* (#(.STAR))?  -- optional fragment *)
+Definition p_frag (r4 : str) : option str :=
+  match r4 with
+  | c :: r => if c =? HASH then Some r else None
+  | [] => None
+  end.
+
+Definition parse (s : str) : uri :=
+  let (o_scheme, r1) := p_scheme s in
+  let (o_auth, r2) := p_auth r1 in
+  let (pth, r3) := span (not_in [QM; HASH]) r2 in       (* ([^?#]STAR) *)
+  let (o_query, r4) := p_query r3 in
+  mkUri o_scheme o_auth pth o_query (p_frag r4).
 
 (* ---- 5.3 component recomposition ------------------------------------------ *)
 Definition recompose (u : uri) : str :=
